@@ -47,7 +47,7 @@ def plan(tier, seed):
     cases = []
     for e in models.catalogue(tier):
         cases.append(dict(key="model/" + e["name"], kind="model", name=e["name"], seed=seed, tier=tier, cost=e["cost"]))
-    for b in MIXED_BASES:
+    for b in list(MIXED_BASES) + ["user-nonconservative"]:
         for w in ("ThreeFieldVariation", "NearlyIncompressible"):
             cases.append(dict(key=f"mixed/{w}/{b}", kind="mixed", wrapper=w, base=b, seed=seed, tier=tier, cost=6))
     for k in ("VolumeChange", "AreaChange", "LineChange"):
@@ -269,7 +269,15 @@ def run_mixed(case):
 
     c = Ctx(case["key"])
     warnings.simplefilter("ignore")
-    e = find(case["base"], case["tier"])
+    nonsym = case["base"] == "user-nonconservative"
+    if nonsym:
+        # inner material WITHOUT a potential (user functions, tangent without major symmetry): nothing in the wrappers may
+        # rely on A : F = F : A
+        from .c01 import material as c01_material
+
+        e = dict(name="user-nonconservative", make=lambda: c01_material("user-nonconservative", None)[0], scale=1.0, lattice="all", states=[("virgin", lambda n: None)], nstate=0)
+    else:
+        e = find(case["base"], case["tier"])
     base = e["make"]()
     c.floor = 1e-4 * max(7.0, e["scale"])
     um = fem.ThreeFieldVariation(base) if case["wrapper"] == "ThreeFieldVariation" else fem.NearlyIncompressible(base, bulk=7.0)
@@ -278,7 +286,7 @@ def run_mixed(case):
     F = stack(lat)
     n = F.shape[2]
     for slab, maker in e["states"]:
-        sv = state_for(e, base, slab, maker, n, case["seed"])
+        sv = None if nonsym else state_for(e, base, slab, maker, n, case["seed"])
         for p0, J0 in PJ:
             p = np.full((n, 1), p0)
             J = np.full((n, 1), J0)
@@ -316,7 +324,8 @@ def run_mixed(case):
             compare_tangent(c, sub + "/up", up if up is not None else z33, dp[0], labels, "block up (= d r_u / dp) vs FD")
             compare_tangent(c, sub + "/pp", (pp_ if pp_ is not None else 0.0) * one, dp[1], labels, "block pp vs FD")
             compare_tangent(c, sub + "/Jp", (pJ_ if pJ_ is not None else 0.0) * one, dp[2], labels, "block pJ (= d r_J / dp) vs FD")
-            compare_tangent(c, sub + "/uJ", uJ if uJ is not None else z33, dJ[0], labels, "block uJ (= d r_u / dJ) vs FD")
+            if not nonsym:  # (for an inner tangent without major symmetry d r_u / dJ and d r_J / dF differ; the returned block is the latter)
+                compare_tangent(c, sub + "/uJ", uJ if uJ is not None else z33, dJ[0], labels, "block uJ (= d r_u / dJ) vs FD")
             compare_tangent(c, sub + "/pJ", (pJ_ if pJ_ is not None else 0.0) * one, dJ[1], labels, "block pJ (= d r_p / dJ) vs FD")
             compare_tangent(c, sub + "/JJ", (JJ_ if JJ_ is not None else 0.0) * one, dJ[2], labels, "block JJ vs FD")
     return c.result(dict(case=case["key"], lattice_points=n, pJ=PJ))
